@@ -3,6 +3,7 @@ import collections
 
 from mc import core, spaces
 from mc.oracles import fa, rx, cfg, pda, tm
+from mc.props import common
 from mc.props.c01 import _nfa_space
 
 
@@ -44,6 +45,48 @@ def roundtrip(acc, kind, inst, rp, obj, printer, parser, fields):
         diff = [k for k in want if want[k] != got.get(k)]
         acc.viol(kind + ' round trip', 'parse(print(x)) differs from x', dict(inst, text=text), repro=rp,
                  observed={k: got.get(k) for k in diff}, expected={k: want[k] for k in diff})
+        return
+    if acc.states % 2 == 0:
+        reparse_after_poison(acc, kind, inst, rp, parser, text, back, want, fields)
+
+
+def poison(x, depth=0, seen=None):
+    """Destroys a result in place (the caller owns it): every container reachable through attributes is emptied,
+    element objects first.  A parser that hands out parts of a remembered earlier result is exposed by the next parse."""
+    seen = set() if seen is None else seen
+    if id(x) in seen or depth > 6:
+        return
+    seen.add(id(x))
+    if isinstance(x, (str, int, float, bool, type(None), frozenset, tuple)):
+        return
+    if isinstance(x, dict):
+        for v in list(x.values()):
+            poison(v, depth + 1, seen)
+        x.clear()
+    elif isinstance(x, (list, set)):
+        for v in list(x):
+            poison(v, depth + 1, seen)
+        x.clear()
+    elif hasattr(x, '__dict__'):
+        for k, v in list(vars(x).items()):
+            poison(v, depth + 1, seen)
+            if isinstance(v, list):
+                setattr(x, k, [])
+
+
+def reparse_after_poison(acc, kind, inst, rp, parser, text, back, want, fields):
+    poison(back)
+    ok, again = core.lib_call(acc, parser.__name__, dict(inst, text=text), parser, text, repro=rp, clause='printed text is rejected by the parser (second parse of the same text)')
+    acc.transitions += 1
+    if not ok:
+        return
+    try:
+        got = fields(again)
+    except Exception as e:
+        acc.viol(parser.__name__, 'parsed object is malformed (second parse, after the caller destroyed the first result)', dict(inst, text=text), repro=rp, observed=core.describe_exc(e))
+        return
+    if got != want:
+        acc.viol(kind + ' round trip', 'a second parse of the same text differs after the caller modified the first result', dict(inst, text=text), repro=rp, observed=str(got)[:400])
 
 
 def f_dfa(D):
@@ -206,10 +249,25 @@ def check_cfg(acc, spec, epsilon='ε'):
     acc.validated += 1
     acc.nontrivial += len(g[3]) >= 3
     try:
-        if f_cfg(back) != f_cfg(G) or not (back == G):
+        want = f_cfg(G)
+        if f_cfg(back) != want or not (back == G):
             acc.viol('grammar round trip', 'parse(print(G)) differs from G', dict(inst, text=text), repro=rp, observed=str(back))
+            return
     except Exception as e:
         acc.viol('parse_simple_cfg', 'parsed object is malformed', dict(inst, text=text), repro=rp, observed=core.describe_exc(e))
+        return
+    # the caller owns the parsed grammar: transform it in place with the library's own procedures (or destroy it), parse again
+    import gambatools.cfg_algorithms as ca
+    how = acc.states % 3
+    try:
+        if how == 0:
+            ca.cfg_eliminate_terminals_in_place(back)
+        elif how == 1:
+            ca.cfg_make_rules_of_length_two_in_place(back)
+        poison(back)
+    except Exception:
+        poison(back)
+    reparse_after_poison(acc, 'grammar', inst, rp, parse_simple_cfg, text, back, want, f_cfg)
 
 
 def t_cfg(acc, space, shard, nshard, stride=1, offset=0):
@@ -274,6 +332,19 @@ def plan(tier, seed):
     add('t_tm', 2, w=1, g=3, blank='_', empty_sigma=False, kw={'gamma': ['a', '%', '_'], 'sigma': ['a']})
     add('t_tm', 2, w=1, g=3, blank='□', empty_sigma=False, kw={'gamma': ['%', '#', '□'], 'sigma': ['%'], 'names': ['epsilon']})
     add('t_tm', 4, w=2, g=2, blank='_', empty_sigma=False, stride=16, kw={'names': ['epsilon', 'stack_symbols']})
+    # wave 5: each blank spelling with the OTHER blank spelling as an ordinary tape / input symbol
+    add('t_tm', 2, w=1, g=3, blank='_', empty_sigma=False, kw={'gamma': ['a', '□', '_'], 'sigma': ['a']})
+    add('t_tm', 2, w=1, g=3, blank='_', empty_sigma=False, kw={'gamma': ['a', '□', '_'], 'sigma': ['a', '□']})
+    add('t_tm', 2, w=1, g=3, blank='□', empty_sigma=False, kw={'gamma': ['a', '_', '□'], 'sigma': ['a', '_']})
+    add('t_tm', 2, w=1, g=3, blank='□', empty_sigma=False, kw={'gamma': ['_', 'a', '□'], 'sigma': ['a'], 'order': 'symbols', 'names': ['Blank']})
+    add('t_tm', 2, w=1, g=3, blank='b', empty_sigma=False, kw={'gamma': ['a', '_', 'b'], 'sigma': ['a'], 'names': ['q₀']})
+    for sch in ('u', 'g', 'K', 'f'):
+        add('t_dfa', 1, n=2, k=2, scheme=sch)
+        if sch != 'g':
+            add('t_dfa', 1, n=3, k=1, scheme=sch)      # the third name of scheme g is the keyword accept: not a DFA state name
+        add('t_pda', 2, n=2, k=1, g=1, t=2, stack=['x'], eps='_', scheme=sch)
+    add('t_nfa', 4, space=['nfa', 2, 1, None, False], variants=[['u', '_', 'sparse'], ['g', 'ε', 'sparse'], ['K', '_', 'total'], ['f', 'ε', 'sparse']])
+    add('t_pda', 2, n=2, k=1, g=2, t=2, stack=['γ', 'Ω'], eps='ε', scheme='u')
     for blank in ('_', '□'):
         for es in (False, True):
             add('t_tm', 1, w=0, g=2, blank=blank, empty_sigma=es)
@@ -285,7 +356,11 @@ def plan(tier, seed):
     add('t_cfg', 16, space='cfg2', stride=2 if q else 1, offset=seed)
     add('t_cfg', 16, space='cfg2+', stride=4 if q else 1, offset=seed)
     add('t_cfg', 8, space='cnf3')
+    base = list(tasks)
+    pres = lambda name, p: (name.endswith('t_dfa') and (p['n'], p['k']) in ((2, 2), (3, 1)) and 'scheme' not in p) or (name.endswith('t_nfa') and p['space'] == ['nfa', 2, 1, None, False] and p['variants'] is NV) or (name.endswith('t_pda') and p['n'] == 1)
+    for kn in ({'dorder': 'aq'}, {'dorder': 'rev'}):
+        tasks += common.knob_copies(base, pres, kn)
     return {'tasks': tasks, 'bounds': {'spaces': 'DFA(n<=3,k<=2, k=0); NFA(1,k),(2,k) all x eps _/ε x encodings; NFA(3,1,<=3); PDA(1,1,1,<=4), PDA(2,1,1,<=3), PDA(2,2,1,<=2), PDA(2,1,2,<=2) with stack symbols x,$; TM(0,2), TM(1,2), TM(1,3), TM(2,2) with blank _/□ and Sigma possibly empty; RE({}) in 3 printers; expressible grammars of CFG2, CFG2+, CNF(3){}'.format(8 if q else 9, ' (strided)' if q else '')},
             'exhaustive': True,
             'rule': 'every object of the spaces with a printable epsilon/blank: parse(print(x)) compared field by field with x; expressions: exact language equality and identical printed form after re-parsing; grammars: == and own field-wise comparison; non-trivial = object with >= 2 transitions / >= 4 nodes / >= 3 rules',
-            'assumptions': ['epsilon \'\' is not printable and not in the space', 'only grammars expressible in the simple format (every variable has a rule, start variable owns the first rule)', 'state names that are keywords of OTHER formats (accept, reject, blank, ... for an NFA or PDA; epsilon, stack_symbols for a TM) are legal and in the space; %, #, &, $ as stack / tape symbols; grammar objects with epsilon symbol ε, _ or e; one text in three first goes through the generic parse_automaton']}
+            'assumptions': ['epsilon \'\' is not printable and not in the space', 'only grammars expressible in the simple format (every variable has a rule, start variable owns the first rule)', 'state names that are keywords of OTHER formats (accept, reject, blank, ... for an NFA or PDA; epsilon, stack_symbols for a TM) are legal and in the space; %, #, &, $ as stack / tape symbols; grammar objects with epsilon symbol ε, _ or e; one text in three first goes through the generic parse_automaton', 'wave 5: every other parsed result is destroyed in place (grammars: first transformed by the in-place procedures) and the same text parsed again; TMs with one blank spelling as blank and the other as an ordinary symbol; names with non-decimal digits / outside latin-1 / keywords in another case / generated-looking; transition dicts filled in other orders']}
